@@ -72,6 +72,23 @@ func resultClass(kind, res string) string {
 		return res
 	case strings.HasPrefix(res, "PANIC"):
 		return "PANIC"
+	case res == "decode-panic" || res == "split-error" || res == "opened":
+		return res
+	case kind == "opendisk":
+		return "decoded-" + res[:1]
+	case kind == "rlpsplit":
+		return "split-" + strings.Fields(res)[0] + "-" + strings.Fields(res)[len(strings.Fields(res))-1]
+	case kind == "rlpstr" || kind == "rlplist":
+		return "rlp-encoding"
+	case strings.HasPrefix(res, "blob="):
+		return "blob"
+	case strings.HasPrefix(res, "mem="):
+		return "dbstate"
+	case kind == "shape" || kind == "sshape":
+		if strings.Contains(res, "H") {
+			return "shape-with-hash-nodes"
+		}
+		return "shape-loaded"
 	case kind == "keccak":
 		return "digest"
 	case res == "56e81f171bcc55a6ff8345e692c0f86e5b48e01b996cadc001622fb5e363b421":
